@@ -178,36 +178,45 @@ Theorem C07_broken_is_final :
 Proof. exact broken_is_final. Qed.
 Print Assumptions C07_broken_is_final.
 
-(* (9) tie to the source: the control skeleton of Stream.send_data, process_window_updated,
-   process_remote_settings_changed and the pause/resume plumbing, regenerated from /repo on every
-   run (tools/facts_C07.py -> Gen/FactsC07.v), is the one Model/FlowSend.v transcribes ... *)
-Theorem C07_source_skeleton :
-  sk_send_data = map s2z expected_send_data /\
-  sk_process_window_updated = map s2z expected_window_updated /\
-  sk_process_remote_settings_changed = map s2z expected_settings_changed /\
-  sk_connection_pause_writing = [s2z "call:self.write_ready.clear"] /\
-  sk_connection_resume_writing = map s2z expected_resume_writing /\
-  sk_connection_flush = map s2z expected_flush /\
-  sk_protocol_pause_writing = [s2z "call:self.connection.pause_writing"] /\
-  sk_protocol_resume_writing = [s2z "call:self.connection.resume_writing"].
-Proof. exact source_skeleton. Qed.
-Print Assumptions C07_source_skeleton.
+(* (9) tie to the source.  tools/facts_C07.py -> Gen/FactsC07.v (regenerated from /repo on every run):
+   the control-flow paths of Stream.send_data, process_window_updated, process_remote_settings_changed
+   and the pause/resume/flush plumbing, private helpers inlined, as sequences of effects on objects named
+   by role (independent of the names of locals / private attributes / helpers, of if-else versus early
+   return, of temporaries).  They are the paths Model/FlowSend.v transcribes ... *)
+Theorem C07_source_paths :
+  paths_send_data = P expected_send_data /\
+  paths_process_window_updated = P expected_window_updated /\
+  paths_process_remote_settings_changed = P expected_settings_changed /\
+  paths_connection_pause_writing = P [["clear:write_ready"; "->exit"]]%string /\
+  paths_connection_resume_writing = P expected_resume_writing /\
+  paths_connection_flush = P expected_flush /\
+  paths_protocol_pause_writing = P [["call:connection.pause_writing"; "->exit"]]%string /\
+  paths_protocol_resume_writing = P [["call:connection.resume_writing"; "->exit"]]%string.
+Proof. exact source_paths. Qed.
+Print Assumptions C07_source_paths.
 
-(* ... in particular send_data has exactly two suspension points, both before the window is read or
-   inside the `not window > 0` branch: window read, chunk computation and h2.send_data are atomic *)
-Theorem C07_source_no_suspension_between_read_and_send :
-  awaits_in sk_send_data = 2%nat /\
-  awaits_in (skipn 8 sk_send_data) = 0%nat /\
-  nth_error sk_send_data 2 = Some (s2z "call:self._h2_connection.local_flow_control_window").
-Proof. exact source_two_suspension_points. Qed.
-Print Assumptions C07_source_no_suspension_between_read_and_send.
+(* ... and, spelled out as what the proofs need of Stream.send_data: (a) no suspension point between the
+   window read and the h2 send + transport write; (b) every h2.send_data is written to the transport at
+   once (so no DATA frame of a sender is queued in h2 when resume_writing flushes); (c) the only waits
+   are on write_ready at the top of an iteration and on the stream's own window_updated right after
+   clear(), and a wait for credit is followed by another trip round the loop (re-check); (d) the branch
+   is on window > 0 exactly; and all three kinds of path exist *)
+Theorem C07_source_send_data_facts :
+  forallb no_await_after_window_read paths_send_data = true /\
+  forallb send_written_at_once paths_send_data = true /\
+  forallb waits_ok paths_send_data = true /\
+  forallb window_branches_ok paths_send_data = true /\
+  existsb (has "window<=0") paths_send_data = true /\
+  existsb (fun p => has "h2:send_data" p && has "->loop" p) paths_send_data = true /\
+  existsb (fun p => has "h2:send_data" p && has "->exit" p) paths_send_data = true.
+Proof. exact source_send_data_facts. Qed.
+Print Assumptions C07_source_send_data_facts.
 
-(* ... and every h2.send_data in send_data is written to the transport at once (data_to_send +
-   transport.write follow it with nothing in between), so no DATA frame of a sender is ever queued
-   in h2 when resume_writing flushes: the flush emits nothing in this model (do_resume) *)
-Theorem C07_source_sends_flushed_at_once : sends_flushed sk_send_data = true.
-Proof. exact source_sends_flushed_at_once. Qed.
-Print Assumptions C07_source_sends_flushed_at_once.
+(* (e) a window update for stream 0 / an INITIAL_WINDOW_SIZE change sets the event of EVERY registered
+   stream, otherwise that of the addressed stream; (f) pause clears write_ready, resume sets it first *)
+Theorem C07_source_wakeup_facts : wakeups_ok = true /\ pause_resume_ok = true.
+Proof. exact source_wakeup_facts. Qed.
+Print Assumptions C07_source_wakeup_facts.
 
 (* (10) the connection around the senders (Model/FlowSend.v, `conn`): the transport's own paused
    state, frames queued in h2 by Stream.reset_nowait() while write_ready is clear, the flush of
